@@ -18,11 +18,13 @@ VARIANTS = {
     "san":   ["-O1", "-g1", "-fsanitize=address,undefined", "-fno-omit-frame-pointer"],
     "plain": ["-O2", "-g1"],
     "vg":    ["-O1", "-g", "-DSIM_VALGRIND"],
+    "cov":   ["-O0", "-g", "--coverage"],   # development aid: line coverage of the library by the harnesses (gcov)
 }
 LINK = {
     "san":   ["-fsanitize=address,undefined"],
     "plain": [],
     "vg":    [],
+    "cov":   ["--coverage"],
 }
 HARNESSES = ["c16_dispatch", "c06_parallel", "c13_container", "c17_workflow", "simtest"]
 
